@@ -2,7 +2,7 @@
    Statements only (model/Eval.v mirrors get_column_expr_value with its per-row cache; model/Expr.v
    the Display text that is the cache key). *)
 From Coq Require Import List NArith ZArith Bool String.
-From FS Require Import lib.Str lib.Res gen.OpsGen gen.FieldGen gen.FuncGen model.Lexer model.Expr model.Parser model.Eval proofs.C15_expr proofs.DisplayProofs proofs.ArithRoundtrip proofs.RoundtripPfuel.
+From FS Require Import lib.Str lib.Res gen.OpsGen gen.FieldGen gen.FuncGen model.Lexer model.Expr model.Parser model.Eval proofs.C15_expr proofs.DisplayProofs proofs.ArithRoundtrip proofs.RoundtripPfuel proofs.EvalIndep.
 Import ListNotations.
 
 (* the operator table of ArithmeticOp::calc, as regenerated from the source *)
@@ -36,8 +36,28 @@ Proof. exact undisplay_display_len. Qed.
 Example C15_wf_example : wf (ABin ASubtract (ABin AMultiply (ANum true (s "2"%string)) (ACol false FSize)) (ABin AAdd (ACol true FUid) (ANum false (s "10"%string)))) /\ post_ok [] /\ stops [].
 Proof. cbn. repeat split; discriminate. Qed.
 
+(* EACH COLUMN ON ITS OWN, for every select list.  model/Eval.v mirrors get_column_expr_value with its per-row cache
+   (a hit returns the PRINTED text of the earlier value).  For every entry (attr), every list of well-formed columns
+   - numbers, quoted literals of ANY text as columns, columns with or without a leading minus, + - * / % to any depth,
+   quoted literal operands that cannot be mistaken for a sub-expression (cwf) - evaluated left to right with one shared
+   cache, the row is the list of each column's own value: the text of a column does not depend on its neighbours or on
+   the order.  Premises stated explicitly: printing a binary64 (or an integer) and reading it back gives the same
+   number (lib/F64.v; validated by the differential test on every run, not proved). *)
+Theorem C15_columns_independent :
+  (forall f : PrimFloat.float, F64.parse_f64 (F64.show_f64 f) = Some f) ->
+  (forall z : Z, F64.parse_f64 (Dec.show_Z z) = Some (v_to_float (VInt z))) ->
+  forall attr cols fuel, Forall cwf cols -> enough fuel cols ->
+  eval_row attr fuel (map cembed cols) [] = map (fun a => v_show (den attr a)) cols.
+Proof. exact columns_independent_global. Qed.
+(* two cached expressions with the same cache key have the same value (the key is the Display text) *)
+Theorem C15_same_key_same_value : forall attr a b, cacheable a = true -> cacheable b = true -> cwf a -> cwf b ->
+  key a = key b -> den attr a = den attr b.
+Proof. exact key_den. Qed.
+
 Print Assumptions C15_operator_table.
 Print Assumptions C15_parser_precedence_assoc.
 Print Assumptions C15_cache_key_injective.
 Print Assumptions C15_cache_key_readable.
 Print Assumptions C15_parse_witnesses.
+Print Assumptions C15_columns_independent.
+Print Assumptions C15_same_key_same_value.
